@@ -1,33 +1,78 @@
 ----------------------------- MODULE Trace_System -----------------------------
 (***************************************************************************)
-(* Stateful trace validation of whole API programs (all of C01..C04, C02,  *)
-(* C09, C14 at the level of sessions).  The harness runs a random program  *)
-(* of public API calls over several mappings, handles, cache files and     *)
-(* interleaved frame iterators in ONE process and logs one line per call   *)
-(* in execution order; the trace spec replays the log through the actions  *)
-(* of System.tla.  A line no action can consume deadlocks the spec there.  *)
+(* Stateful trace validation of whole API programs against System.tla.     *)
+(* The harness runs programs of public API calls over mapping values,      *)
+(* sub-mappings, handles, cache files and interleaved frame iterators in   *)
+(* ONE process and logs one line per call in execution order; the trace    *)
+(* spec replays the log through the actions of System.tla with the data    *)
+(* layer bound to the specification's own definitions.  A line no action   *)
+(* can consume deadlocks the spec there.  Programs come from two sources:  *)
+(* random ones drawn by the harness, and every program TLC enumerated from *)
+(* MC_System (spec -> implementation -> spec).                             *)
 (*                                                                         *)
-(*   load    (first lines) mapping bytes                                   *)
-(*   mapper  {h, m, params}            write  {f, m, bytes}                *)
-(*   parse   {h, f}                    q      {h, q, got}                  *)
-(*   begin   {i, h, frame}             next   {i, got}                     *)
+(*   load    (first lines) base mapping bytes                              *)
+(*   reset                             start of the next program           *)
+(*   new     {o, m}                    section {o2, o, a, b}               *)
+(*   clone   {o2, o}                   meta    {o, got}                    *)
+(*   uuid    {o, got}                  mapper  {h, o, params}              *)
+(*   write   {f, o, bytes}             writefail {o, k, ok}                *)
+(*   parse   {h, f}                    q       {h, q, got}                 *)
+(*   sig     {h, sig, got}             typed   {h, levels, got}            *)
+(*   begin   {i, h, frame}             next    {i, got}                    *)
 (***************************************************************************)
-EXTENDS Integers, Sequences, FiniteSets, TLC, TLCExt, Json, IOUtils, Index, MappingSyntax
+EXTENDS Integers, Sequences, FiniteSets, TLC, TLCExt, Json, IOUtils,
+        MappingSyntax, CacheContent, FrameIter, Signature, TraceRemap
 
 Events == ndJsonDeserialize(IOEnv.TRACE)
 N == Len(Events)
 NLoads == Cardinality({n \in 1..N : Events[n].t = "load"})
 
-VARIABLES l, handles, files, iters
+R == INSTANCE MappingMeta WITH Window <- 50
+U == INSTANCE Uuid          \* (instantiated, not extended: Sha1 has a `Blocks` of its own)
 
-MappingTable ==
-  [m \in 1..NLoads |->
-     LET recs == OkRecords(Items(Events[m].src))
-     IN  [blocks |-> Blocks(recs), indomain |-> InDomain(recs)]]
+\* the item stream of MappingSyntax in the alphabet of MappingMeta
+Abstract(it) ==
+  CASE it.k = "header" -> [t |-> "h", key |-> it.key, value |-> it.value]
+    [] it.k = "class" -> [t |-> "c", key |-> <<>>, value |-> <<>>]
+    [] it.k = "field" -> [t |-> "f", key |-> <<>>, value |-> <<>>]
+    [] it.k = "method" -> [t |-> IF it.lm = <<>> THEN "m0" ELSE "m1", key |-> <<>>, value |-> <<>>]
+    [] OTHER -> [t |-> "e", key |-> <<>>, value |-> <<>>]
 
-S == INSTANCE System WITH Mappings <- MappingTable
+DSectionOf(bytes, a, b) == SubSeq(bytes, a + 1, b)
+DRangeOk(bytes, a, b) == 0 <= a /\ a <= b /\ b <= Len(bytes)
+\* the index of a base mapping is computed once (most mapping values of a program are whole base files)
+BaseIndex == [m \in 1..NLoads |->
+                LET recs == OkRecords(Items(Events[m].src))
+                IN  [index |-> Blocks(recs), indomain |-> InDomain(recs)]]
+BaseOf(bytes) == {m \in 1..NLoads : Events[m].src = bytes}
+DIndexOf(bytes) ==
+  IF BaseOf(bytes) # {} THEN BaseIndex[CHOOSE m \in BaseOf(bytes) : TRUE].index
+  ELSE Blocks(OkRecords(Items(bytes)))
+DInDomainOf(bytes) ==
+  IF BaseOf(bytes) # {} THEN BaseIndex[CHOOSE m \in BaseOf(bytes) : TRUE].indomain
+  ELSE InDomain(OkRecords(Items(bytes)))
+DMetaOf(bytes) ==
+  LET its == Items(bytes)
+      abs == [n \in 1..Len(its) |-> Abstract(its[n])]
+  IN  [is_valid |-> R!IsValid(abs), has_line_info |-> R!HasLineInfo(abs), summary |-> R!Summary(abs)]
+DUuidOf(bytes) == U!MappingUuid(bytes)
+DAnswerOf(idx, q, p) == Answer(idx, q, p)
+DSigOf(idx, s) == Deobfuscate(idx, s)
+DSigConstrained(s) == ValidDescriptor(s)
+DTypedOf(idx, levels) == TypedRemap(idx, levels)
+DBeginOf(idx, frame, p) == Begin(idx, frame, p)
+DStepOf(it) == IterNext(it)
+DWrittenOk(src, w) == WellFormed(w) /\ SameIndex(Content(w), DIndexOf(src))
 
-tvars == <<l, handles, files, iters>>
+VARIABLES l, objs, handles, files, iters
+
+S == INSTANCE System WITH
+       SectionOf <- DSectionOf, RangeOk <- DRangeOk, IndexOf <- DIndexOf, InDomainOf <- DInDomainOf,
+       MetaOf <- DMetaOf, UuidOf <- DUuidOf, AnswerOf <- DAnswerOf, SigOf <- DSigOf,
+       SigConstrained <- DSigConstrained, TypedOf <- DTypedOf, BeginOf <- DBeginOf, StepOf <- DStepOf,
+       WrittenOk <- DWrittenOk
+
+tvars == <<l, objs, handles, files, iters>>
 
 TraceInit == l = NLoads + 1 /\ S!SInit
 
@@ -35,10 +80,19 @@ Ev == Events[l]
 Is(t) == l <= N /\ Events[l].t = t /\ l' = l + 1
 
 TraceNext ==
-  \/ Is("mapper") /\ S!NewMapper(Ev.h, Ev.m, Ev.params)
-  \/ Is("write") /\ S!WriteCache(Ev.f, Ev.m, Ev.bytes)
+  \/ Is("reset") /\ S!Reset
+  \/ Is("new") /\ S!NewMapping(Ev.o, Events[Ev.m].src)
+  \/ Is("section") /\ S!Section(Ev.o2, Ev.o, Ev.a, Ev.b)
+  \/ Is("clone") /\ S!CloneMapping(Ev.o2, Ev.o)
+  \/ Is("meta") /\ S!Meta(Ev.o, Ev.got)
+  \/ Is("uuid") /\ S!Uuid(Ev.o, Ev.got)
+  \/ Is("mapper") /\ S!NewMapper(Ev.h, Ev.o, Ev.params)
+  \/ Is("write") /\ S!WriteCache(Ev.f, Ev.o, Ev.bytes)
+  \/ Is("writefail") /\ S!WriteFail(Ev.o, Ev.ok)
   \/ Is("parse") /\ S!ParseCache(Ev.h, Ev.f)
   \/ Is("q") /\ S!Query(Ev.h, Ev.q, Ev.got)
+  \/ Is("sig") /\ S!Sig(Ev.h, Ev.sig, Ev.got)
+  \/ Is("typed") /\ S!Typed(Ev.h, Ev.levels, Ev.got)
   \/ Is("begin") /\ S!IterBegin(Ev.i, Ev.h, Ev.frame)
   \/ Is("next") /\ S!IterNextCall(Ev.i, Ev.got)
   \/ (l > N /\ UNCHANGED tvars)
